@@ -21,7 +21,15 @@ func main() {
 	workers := flag.Int("workers", 16, "parallel engines")
 	keep := flag.Bool("keep", false, "keep scratch directories")
 	verbose := flag.Bool("v", false, "verbose")
+	replay := flag.String("replay", "", "replay file written by an earlier run: run that counterexample natively against the current /repo tree")
 	flag.Parse()
+	// "check <id> --replay <file>" arrives as tier "--replay" followed by the path
+	if *tier == "--replay" || *tier == "-replay" {
+		if flag.NArg() > 0 {
+			*replay = flag.Arg(0)
+		}
+		*tier = "thorough"
+	}
 	if t := os.Getenv("VERIF_TIER"); t != "" && !isFlagSet("tier") {
 		*tier = t
 	}
@@ -31,6 +39,14 @@ func main() {
 		os.Exit(2)
 	}
 	r := &runner{spec: spec, tier: *tier, only: *only, workers: *workers, keep: *keep, verbose: *verbose}
+	if *replay != "" {
+		rec, err := loadReplay(*replay)
+		if err != nil {
+			fmt.Fprintln(os.Stderr, "cannot read replay file:", err)
+			os.Exit(2)
+		}
+		r.replayRec = rec
+	}
 	os.Exit(r.run())
 }
 
